@@ -29,10 +29,10 @@ echo "== apply patch ($PATCH)" >>$LOG; git -C $WT apply $PATCH >>$LOG 2>&1; appl
 echo "== build" >>$LOG; (cd $WT && go build -mod=mod $(go list -mod=mod ./... 2>/dev/null | grep -v '/demo/') ) >>$LOG 2>&1; build_rc=$?
 echo "== demo with patch" >>$LOG; run_demo; patched_rc=$?
 rm -f $WT/$PKG/zz_seed_demo_test.go
-echo "== full suite with patch" >>$LOG; BASELINE_TIMEOUT=150m /verif/tools/baseline.sh $WT --affected-by $PATCH >>$LOG 2>&1; suite_rc=$?
+echo "== full suite with patch" >>$LOG; BASELINE_TIMEOUT=150m /verif/tools/baseline_reduced.sh $WT --affected-by $PATCH >>$LOG 2>&1; suite_rc=$?
 ok=false; [ $clean_rc -eq 0 ] && [ $apply_rc -eq 0 ] && [ $build_rc -eq 0 ] && [ $patched_rc -ne 0 ] && [ $suite_rc -eq 0 ] && ok=true
 cat > $DST/verified.json <<J
-{"seed":"$P-$V","repo_head":"$(git -C /repo rev-parse --short HEAD)","demo_pkg":"$PKG","demo_passes_on_clean_tree":$([ $clean_rc -eq 0 ] && echo true || echo false),"patch_applies":$([ $apply_rc -eq 0 ] && echo true || echo false),"builds":$([ $build_rc -eq 0 ] && echo true || echo false),"demo_fails_with_patch":$([ $patched_rc -ne 0 ] && echo true || echo false),"pinned_suite_passes_with_patch":$([ $suite_rc -eq 0 ] && echo true || echo false),"confirmed":$ok,
+{"seed":"$P-$V","repo_head":"$(git -C /repo rev-parse --short HEAD)","demo_pkg":"$PKG","demo_passes_on_clean_tree":$([ $clean_rc -eq 0 ] && echo true || echo false),"patch_applies":$([ $apply_rc -eq 0 ] && echo true || echo false),"builds":$([ $build_rc -eq 0 ] && echo true || echo false),"demo_fails_with_patch":$([ $patched_rc -ne 0 ] && echo true || echo false),"pinned_suite_passes_with_patch":$([ $suite_rc -eq 0 ] && echo true || echo false),"confirmed":$ok,"suite_packages_skipped":"${BASELINE_SKIP:-}",
  "ran":["go test -run '$DEMO_RUN' ./$PKG (clean: rc=$clean_rc, patched: rc=$patched_rc)","go build (non-demo packages) rc=$build_rc","tools/baseline.sh <worktree> --affected-by patch.diff (all packages whose test dependency closure contains a touched package) rc=$suite_rc"]}
 J
 cleanup
